@@ -397,6 +397,13 @@ def run_case(case, monitor, storage_factory=None, hooks=None, extra_rounds=6, ke
                     world.user(side_, op_)
                     n_user += 1
                     emit([0, side_, it.op(op_)], ("user", side_, op_[0], op_[1:]))
+                # C07 (additive): engine steps of the new process before the fair rounds start (the order in which the
+                # restarted managers first get to run is not fixed)
+                for a_ in case.get("after_crash_steps", []):
+                    try:
+                        step(a_[0], a_[1] if len(a_) > 1 else None)
+                    except E.Token:
+                        pass
                 if not case.get("resume_after_crash"):
                     break
                 # C07 (additive): recover to quiescence first, then the rest of the schedule continues on the new engine
